@@ -238,6 +238,11 @@ impl ControlHandle {
             cmd::ScdKind::WriteMemStacked => ack::ScdKind::WriteMemStacked,
         };
         let cmd_len = cmd.cmd_len();
+        if cmd_len > self.config.maximum_cmd_length as usize {
+            return Err(ControlError::InvalidDevice(
+                "command doesn't fit in the maximum command length of the device".into(),
+            ));
+        }
         let ack_len = cmd.maximum_ack_len();
         if self.buffer.len() < std::cmp::max(cmd_len, ack_len) {
             self.buffer.resize(std::cmp::max(cmd_len, ack_len), 0);
